@@ -265,15 +265,9 @@ func (s *grpcServer) UpdateActionResult(ctx context.Context,
 		return nil, errEmptyActionResult
 	}
 
-	err = s.cache.Put(ctx, cache.AC, req.ActionDigest.Hash,
-		int64(len(data)), bytes.NewReader(data))
-	if err != nil && err != io.EOF {
-		s.logErrorPrintf(err, "%s %s %s", logPrefix, req.ActionDigest.Hash, err)
-		code := gRPCErrCode(err, codes.Internal)
-		return nil, status.Error(code, err.Error())
-	}
-
-	// Also cache any inlined blobs, separately in the CAS.
+	// Cache any inlined blobs, separately in the CAS, before storing the
+	// ActionResult itself: if one of them is rejected then the request
+	// fails, and nothing must have been stored under the action key.
 	//
 	// TODO: consider normalizing what we store in the AC (store all results
 	// inlined? or de-inline all results?)
@@ -342,6 +336,14 @@ func (s *grpcServer) UpdateActionResult(ctx context.Context,
 			return nil, status.Error(code, err.Error())
 		}
 		s.accessLogger.Printf("GRPC CAS PUT %s OK", hash)
+	}
+
+	err = s.cache.Put(ctx, cache.AC, req.ActionDigest.Hash,
+		int64(len(data)), bytes.NewReader(data))
+	if err != nil && err != io.EOF {
+		s.logErrorPrintf(err, "%s %s %s", logPrefix, req.ActionDigest.Hash, err)
+		code := gRPCErrCode(err, codes.Internal)
+		return nil, status.Error(code, err.Error())
 	}
 
 	s.accessLogger.Printf("GRPC AC PUT %s OK", req.ActionDigest.Hash)
